@@ -132,11 +132,14 @@ class DelayModel:
         if self.dist == "normal":
             s = default_rng(self.seed).normal(mu, sigma, n)
         elif self.dist == "poisson":
-            s = default_rng().poisson(mu, int(runtime / self.degree))
+            s = default_rng(self.seed).poisson(mu, n)
         else:
-            s = default_rng().uniform()
+            s = default_rng(self.seed).uniform(mu, mu + sigma, n)
 
         var = s[s > mu]
+        if len(var) == 0:
+            # Nothing drawn above the runtime (e.g. a zero runtime): no delay
+            return runtime
         rand_var = var[int(len(var)/2)]
         return rand_var
 
